@@ -371,7 +371,7 @@ def make_contracts(L):
 
     C["revert"] = Contract(
         name=f"{pre}.revert", module=L.module, qualname=f"{L.cond}.revert",
-        ensures=revert_ens, instances=revert_inst, callees=[CU.revert_conditional], requires=lambda self, rv, *, solve_triu: pos_requires(self),
+        ensures=revert_ens, instances=revert_inst, callees=[CU.revert_conditional], requires=lambda self, rv, *, solve_triu: pos_requires(self) + CU.solver_requires(solve_triu),
         inherits=("revert_conditional#", "ghost_inverse#"),
         doc="observed = marginal of y; backward conditional (G,xi,Xi): G S = P A^T, xi = m - G(A m + b), Xi = P - G S G^T (all in effective coordinates)",
     )
